@@ -137,6 +137,68 @@ Theorem C45_oracle_except_known_coarse : forall end_of cfg ops,
 Proof. intros end_of cfg ops K. apply (hist_ok_model end_of true cfg ops []). intros _. exact K. Qed.
 Print Assumptions C45_oracle_except_known_coarse.
 
+(** ---------------------------------------------------------------- shared path DB
+    The path DB is the control service's: it also receives public segments
+    (group id 0, op [OPub], part of the histories above: [registered _ _ 0 sg]
+    means "inserted as a public segment") and DeleteExpired removes rows.  The
+    following statements therefore start from an ARBITRARY store [st0]. *)
+
+(** Groups recorded after a history: those of [st0] and those registered, nothing else. *)
+Theorem C45_stored_only_if_from : forall end_of cfg st0 ops s g,
+  stored_under (exec end_of true cfg st0 ops) s g ->
+  stored_under st0 s g \/ exists sg, registered cfg ops g sg /\ s_id sg = s.
+Proof.
+  intros end_of cfg st0 ops s g H. rewrite exec_puts in H.
+  destruct (run_stored_sound _ _ _ _ _ H) as [H'|[sg [H1 H2]]]; [now left|].
+  right. exists sg. split; [now apply In_puts_of | assumption].
+Qed.
+Print Assumptions C45_stored_only_if_from.
+
+(** ... exactly those, unless a registration meets a segment stored in an equal or
+    newer version without its group ([known_puts st0]: the defect class relative
+    to [st0] — e.g. a public segment with the same id already in the DB). *)
+Theorem C45_stored_iff_from_except_known : forall end_of cfg st0 ops s g,
+  known_puts st0 (puts_of cfg ops) = false ->
+  (stored_under (exec end_of true cfg st0 ops) s g <->
+   stored_under st0 s g \/ exists sg, registered cfg ops g sg /\ s_id sg = s).
+Proof.
+  intros end_of cfg st0 ops s g K. split; [apply C45_stored_only_if_from|].
+  rewrite exec_puts. intros [H|[sg [H <-]]].
+  - now apply run_stored_mono.
+  - apply In_puts_of in H. now apply run_stored_complete.
+Qed.
+Print Assumptions C45_stored_iff_from_except_known.
+
+(** Answers from an arbitrary store (one row per segment id): every returned
+    segment ends at the destination and carries a requested group that [st0]
+    had or that was registered; outside the defect class every segment
+    registered under a requested group and ending at the destination is returned. *)
+Theorem C45_result_from : forall end_of cfg st0 ops q l,
+  NoDup (map fst st0) ->
+  segments end_of cfg q (exec end_of true cfg st0 ops) = SOk l ->
+  (forall s v, In (s, v) l ->
+     ends_at (q_dst q) (end_of s) = true /\
+     exists g, In g (q_gids q) /\
+       (stored_under st0 s g \/ exists sg, registered cfg ops g sg /\ s_id sg = s))
+  /\ (known_puts st0 (puts_of cfg ops) = false ->
+      forall g sg, In g (q_gids q) -> registered cfg ops g sg ->
+        ends_at (q_dst q) (end_of (s_id sg)) = true -> exists v, In (s_id sg, v) l).
+Proof.
+  intros end_of cfg st0 ops q l ND E.
+  assert (ND' : NoDup (keys (exec end_of true cfg st0 ops))).
+  { rewrite exec_puts. now apply NoDup_run_puts. }
+  destruct (segments_spec end_of cfg q (exec end_of true cfg st0 ops)) as [[_ E']|[_ [e E']]];
+    rewrite E' in E; inversion E; subst l. split.
+  - intros s v H. apply (In_get end_of _ _ _ _ _ ND') in H as [gs [F [He [g [Hg Hm]]]]].
+    split; [assumption|]. exists g. split; [assumption|].
+    apply C45_stored_only_if_from with (end_of := end_of). exists v, gs. auto.
+  - intros K g sg Hm Hr He.
+    assert (S : stored_under (exec end_of true cfg st0 ops) (s_id sg) g).
+    { apply C45_stored_iff_from_except_known; [assumption|]. right. eauto. }
+    destruct S as [v [gs [F Hg]]]. exists v. apply (In_get end_of _ _ _ _ _ ND'). eauto 8.
+Qed.
+Print Assumptions C45_result_from.
+
 (** ---------------------------------------------------------------- witnesses *)
 Definition w_cfg : config :=
   mkcfg [(1, mkgroup (1, 10) [(1, 11)] [(1, 12)] [(1, 10)]);
@@ -160,13 +222,14 @@ Proof.
   assert (A2 : reg_allowed w_cfg (mkreg (1, 11) 2 [w_seg] true)).
   { apply reg_okb_allowed. vm_compute. reflexivity. }
   assert (R2 : registered w_cfg w_ops 2 w_seg).
-  { eexists. split; [right; left; reflexivity|]. split; [exact A2|]. split; [reflexivity | now left]. }
+  { left. eexists. split; [right; left; reflexivity|]. split; [exact A2|]. split; [reflexivity | now left]. }
   split; [reflexivity|]. split.
   - exists 2, w_seg. split; [now left|]. split; [exact R2 | reflexivity].
   - split.
     + exists 2, w_seg. split; [exact R2|]. split; reflexivity.
-    + intros g sg [r [Hin [_ [_ Hs]]]] _.
-      destruct Hin as [E|[E|[]]]; inversion E; subst r; destruct Hs as [<-|[]]; cbn; apply Z.le_refl.
+    + intros g sg [[r [Hin [_ [_ Hs]]]]|[_ Hin]] _.
+      * destruct Hin as [E|[E|[]]]; inversion E; subst r; destruct Hs as [<-|[]]; cbn; apply Z.le_refl.
+      * destruct Hin as [E|[E|[]]]; discriminate.
 Qed.
 Print Assumptions C45_result_exact_refuted.
 
@@ -175,6 +238,16 @@ Theorem C45_oracle_refuted : exists end_of cfg ops,
   hist_ok end_of cfg [] ops (model_obs true end_of cfg ops) = false.
 Proof. exists w_end, w_cfg, (w_ops ++ [OReq w_req]). split; vm_compute; reflexivity. Qed.
 Print Assumptions C45_oracle_refuted.
+
+(** The shared-DB variant of the defect: a public segment with the same id is
+    already in the DB in an equal version; the hidden registration is accepted,
+    the history is in the defect class and the group's reader gets nothing. *)
+Example C45_public_then_register :
+  let ops := [OPub w_seg; OReg (mkreg (1, 11) 1 [w_seg] true)] in
+  known w_cfg ops = true
+  /\ trace w_end true w_cfg [] (ops ++ [OReq (mkreq [1] (1, 11) (1, 12))])
+     = [OutPub; OutReg ROk; OutReq (SOk [])].
+Proof. vm_compute. split; reflexivity. Qed.
 
 (** Non-vacuity: a history outside the known class in which a writer registers
     two segments under two groups, a newer version replaces one, a non-writer
